@@ -42,8 +42,19 @@ func defaultCreator(opts ...func(*baseapp.BaseApp)) ibctesting.AppCreator {
 }
 
 // newWorld is pktsim.NewWorld with a custom app creator.
-func newWorld(outer *testing.T, h pktsim.History, creator ibctesting.AppCreator) *sim.World {
+//
+// skewClientIDs creates one extra light client on chain B first, so that the two ends of
+// every later client pair have DIFFERENT client ids (07-tendermint-k on A, 07-tendermint-(k+1)
+// on B). With equal ids on both chains the exported clientv2 genesis is rejected by its own
+// Validate() (proposed known finding "v2-counterparty-equal-client-id-rejected", demonstrated
+// by TestC44Known); skewing the ids excludes that signature by construction.
+func newWorld(outer *testing.T, h pktsim.History, creator ibctesting.AppCreator, skewClientIDs bool) *sim.World {
 	w := sim.NewWorld(outer, 2, creator)
+	if skewClientIDs {
+		sim.Guard("skew client ids", func() {
+			ibctesting.NewPath(w.Chains[0], w.Chains[1]).EndpointB.CreateClient()
+		})
+	}
 	var base *sim.Link
 	for _, k := range h.Links {
 		kind := sim.LinkKind(k)
